@@ -231,6 +231,11 @@ func c02WriteUniverse(dir string, tc *c02Case) (string, []byte) {
 		}
 		fd.comps[s.Kind][s.Name] = c02Content2JSON(s.Kind, s.C)
 	}
+	// every directory a reference may be spelled through ("sub/../a.json") exists, as in the abstract layout:
+	// a location-less document hands such a path to the operating system unnormalised
+	for _, d := range []string{"r/sub/deep", "r/shared", "r/catalog", "o", "shared"} {
+		os.MkdirAll(filepath.Join(dir, filepath.FromSlash(d)), 0o755)
+	}
 	var rootBytes []byte
 	for f, fd := range files {
 		var doc any
